@@ -6,11 +6,14 @@ import (
 	"fmt"
 	"os"
 	"path/filepath"
+	"sort"
+	"strconv"
 	"strings"
 	"time"
 
 	"github.com/jhalter/mobius/verifh/explore"
 	"github.com/jhalter/mobius/verifh/ref"
+	"github.com/jhalter/mobius/verifh/vrt"
 	"github.com/jhalter/mobius/verifh/world"
 )
 
@@ -264,7 +267,145 @@ func c02Cases(thorough bool) []c02Case {
 	return cs
 }
 
+// ---- schedules: the same coalesced stream under every schedule ----
+
+// c02OrderStream: one client's requests that do not commute, sent without waiting for replies.
+func c02OrderStream() []byte {
+	b := append([]byte(nil), ref.Handshake()...)
+	add := func(t ref.Tx) { b = append(b, t.Encode()...) }
+	lt := world.LoginTx("u", "pw", ref.FS(ref.FUserName, "uu"), ref.F16(ref.FUserIconID, 3))
+	lt.ID = 1
+	add(lt)
+	add(ref.Tx{Type: ref.TNewUser, ID: 2, Fields: []ref.Fld{ref.F(ref.FUserLogin, obf("bob")), ref.FS(ref.FUserName, "Bob"), ref.F(ref.FUserPassword, obf("p")), ref.F(ref.FUserAccess, make([]byte, 8))}})
+	add(ref.Tx{Type: ref.TDeleteUser, ID: 3, Fields: []ref.Fld{ref.F(ref.FUserLogin, obf("bob"))}})
+	add(ref.Tx{Type: ref.TNewFolder, ID: 4, Fields: []ref.Fld{ref.FS(ref.FFileName, "nf")}})
+	add(ref.Tx{Type: ref.TDeleteFile, ID: 5, Fields: []ref.Fld{ref.FS(ref.FFileName, "nf")}})
+	add(ref.Tx{Type: ref.TSetFileInfo, ID: 6, Fields: []ref.Fld{ref.FS(ref.FFileName, "f.txt"), ref.FS(ref.FFileComment, "first")}})
+	add(ref.Tx{Type: ref.TSetFileInfo, ID: 7, Fields: []ref.Fld{ref.FS(ref.FFileName, "f.txt"), ref.FS(ref.FFileComment, "second")}})
+	return b
+}
+
+var c02OrderBase string
+
+// c02Order: the stream of c02OrderStream arrives in one segment (cut>0: in two); under every schedule the
+// replies, the accounts and the file tree are those of the default schedule.
+func c02Order(cut int) func() explore.SchedOutcome {
+	return func() (out explore.SchedOutcome) {
+		vrt.BeginSetup()
+		wd := world.New(world.Cfg{
+			PreserveForks: true,
+			Accounts:      []world.Acct{{Login: "guest", Name: "Guest"}, {Login: "u", Name: "u", Password: "pw", Access: world.AllAccess}},
+			Files: func(root string) {
+				_ = os.WriteFile(filepath.Join(root, "f.txt"), c08Data(70), 0644)
+			},
+		})
+		defer wd.Close()
+		u := wd.Dial("10.0.0.1:1001")
+		vrt.EndSetup()
+		stream := c02OrderStream()
+		if cut > 0 {
+			u.Conn.FeedSplit(stream, []int{cut})
+		} else {
+			u.Conn.Feed(stream)
+		}
+		vrt.Settle(10 * time.Second)
+		u.Poll()
+		var sb strings.Builder
+		fmt.Fprintf(&sb, "greeting=%x parse=%v stray=%d\n%s\n", u.Greeting, u.ParseErr, len(u.Unparsed()), canonTxs(u.Inbox))
+		var logins []string
+		for _, a := range wd.Srv.AccountManager.List() {
+			logins = append(logins, a.Login)
+		}
+		sort.Strings(logins)
+		fmt.Fprintf(&sb, "accounts=%v\n", logins)
+		for _, l := range world.SnapshotDir(wd.FileRoot) {
+			sb.WriteString(l + "\n")
+		}
+		out.Canon = sb.String()
+		if c02OrderBase != "" && out.Canon != c02OrderBase {
+			out.Violations = append(out.Violations, explore.SchedV{Signature: "C02/control-pipelined/observation-depends-on-the-schedule",
+				Detail: fmt.Sprintf("NewUser bob, DeleteUser bob, NewFolder nf, DeleteFile nf, comment first, comment second sent behind the login in one piece (cut %d): replies, accounts and tree differ from the default schedule's\n--- this schedule\n%s--- default schedule\n%s", cut, clip(out.Canon, 1500), clip(c02OrderBase, 1500))})
+		}
+		for _, p := range vrt.S.Panics() {
+			out.Violations = append(out.Violations, explore.SchedV{Signature: "C02/control-pipelined/panic/" + vrt.PanicSite(p), Detail: p})
+		}
+		return out
+	}
+}
+
+// c02TwoTransfers: two uploads whose transfer connections are open at the same time; the first one's
+// preamble arrives in two segments with the whole preamble of the second in between.
+func c02TwoTransfers(w *explore.Worker) {
+	run := func(split bool) (obs string, ok bool) {
+		c := c02Case{Session: "two-transfers", Cuts: map[bool][]int{true: {8}, false: nil}[split]}
+		seqChecked(w, "C02", c.Session, c, func() {
+			wd := world.New(world.Cfg{Accounts: []world.Acct{{Login: "guest", Name: "Guest"}, {Login: "u", Name: "u", Password: "pw", Access: world.AllAccess}},
+				Files: func(root string) { _ = os.MkdirAll(filepath.Join(root, "Uploads"), 0755) }})
+			defer wd.Close()
+			u, r := wd.Connect("10.0.0.1:1001", "u", "pw", "u")
+			if r == nil || r.Err != 0 {
+				w.Broken("C02: login failed")
+				return
+			}
+			var refs [2][]byte
+			for i, name := range []string{"a.bin", "b.bin"} {
+				id := u.Req(ref.TUploadFile, ref.FS(ref.FFileName, name), ref.F(ref.FFilePath, ref.PathBytes("Uploads")), ref.F32(ref.FTransferSize, 300))
+				world.Quiet()
+				rep := u.Reply(id)
+				if rep == nil || rep.Err != 0 {
+					w.Broken("C02: upload request refused: %v", rep)
+					return
+				}
+				refs[i], _ = rep.Get(ref.FRefNum)
+			}
+			sa := append(ref.Preamble(refs[0], 0), ref.FlatFile(ref.NewInfoFork("a.bin", "BINA", "hDmp", ""), c08Data(40), nil)...)
+			sb2 := append(ref.Preamble(refs[1], 0), ref.FlatFile(ref.NewInfoFork("b.bin", "BINA", "hDmp", ""), c08Data(55), nil)...)
+			ca, cb := wd.DialTransfer("10.0.0.1:2001"), wd.DialTransfer("10.0.0.1:2002")
+			if split {
+				ca.Feed(sa[:8])
+				world.Settle(time.Second)
+				cb.Feed(sb2)
+				world.Settle(time.Second)
+				ca.Feed(sa[8:])
+			} else {
+				ca.Feed(sa)
+				world.Settle(time.Second)
+				cb.Feed(sb2)
+			}
+			world.Settle(15 * time.Second)
+			var sb strings.Builder
+			for _, l := range world.SnapshotDir(wd.FileRoot) {
+				sb.WriteString(l + "\n")
+			}
+			obs, ok = sb.String(), true
+		})
+		return
+	}
+	whole, ok1 := run(false)
+	split, ok2 := run(true)
+	w.Eval()
+	if ok1 && ok2 && whole != split {
+		w.Violation("C02/two-transfers/observation-depends-on-segmentation/inside-transfer-preamble", fmt.Sprintf("two uploads, the first preamble cut after 8 bytes with the second connection's preamble arriving in between:\n--- split\n%s--- whole\n%s", clip(split, 1200), clip(whole, 1200)), 1, c02Case{Session: "two-transfers", Cuts: []int{8}})
+	}
+	w.Outcome("two-transfers|" + fmt.Sprint(explore.Hash(split)))
+}
+
 func runC02(w *explore.Worker) {
+	if w.Mine(0) {
+		c02TwoTransfers(w)
+	}
+	bound := 1
+	if w.Thorough {
+		bound = 2
+	}
+	for _, cut := range []int{0, 100} {
+		if _, out, err := explore.RunSchedule(nil, 50000, func() explore.SchedOutcome { c02OrderBase = ""; return c02Order(cut)() }); err != nil {
+			w.Broken("C02 order baseline: %v", err)
+		} else {
+			c02OrderBase = out.Canon
+		}
+		explore.ExploreSchedules(w, explore.SchedConfig{Harness: "C02order", Params: fmt.Sprint(cut), Bound: bound, FreeCost: 1, MaxSteps: 50000, Suspend: true}, c02Order(cut))
+	}
 	cs := c02Cases(w.Thorough)
 	for i, c := range cs {
 		if !w.Next() {
@@ -286,9 +427,29 @@ func runC02(w *explore.Worker) {
 }
 
 func replayC02(w *explore.Worker, raw json.RawMessage) {
+	var sr explore.SchedReplay
+	if json.Unmarshal(raw, &sr) == nil && sr.Kind == "schedule" {
+		cut, _ := strconv.Atoi(sr.Params)
+		c02OrderBase = ""
+		if _, out, err := explore.RunSchedule(nil, 50000, c02Order(cut)); err == nil {
+			c02OrderBase = out.Canon
+		}
+		_, out, err := explore.RunSchedule(sr.Choices, 50000, c02Order(cut))
+		if err != nil {
+			w.Broken("replay: %v", err)
+		}
+		for _, v := range out.Violations {
+			w.Violation(v.Signature, v.Detail, 0, sr)
+		}
+		return
+	}
 	var c c02Case
 	if err := json.Unmarshal(raw, &c); err != nil {
 		w.Broken("bad replay: %v", err)
+		return
+	}
+	if c.Session == "two-transfers" {
+		c02TwoTransfers(w)
 		return
 	}
 	c02Run(w, c)
